@@ -199,7 +199,14 @@ pub fn run(out: &mut dyn Write, rng: &mut Rng, n: usize, k_max: u64) {
     }
     let mut terminal = 0;
     let mut mates1 = 0;
+    // the fixed roots (identical in every shard) are dealt out over the shards; the generated roots differ per shard anyway
+    let shard_ix: usize = std::env::var("VERIF_SHARD").ok().and_then(|s| s.parse().ok()).unwrap_or(0);
+    let shard_n: usize = std::env::var("VERIF_SHARDS").ok().and_then(|s| s.parse().ok()).unwrap_or(1).max(1);
+    let fixed_n = MATE_IN_ONE.len() + CORPUS.len() + clock_roots;
     for (i, b) in roots.iter().enumerate() {
+        if i < fixed_n && i % shard_n != shard_ix {
+            continue;
+        }
         let l = sorted_moves(b);
         if l.is_empty() {
             terminal += 1;
